@@ -9,7 +9,7 @@ CONFIG = {
     'C01': dict(streams=[('td_class', 480), ('td_wf', 1040), ('td_coarse', 360)], keep='om'),
     'C02': dict(streams=[('td_exact', 880), ('td_wf', 480)], keep='ov'),
     'C03': dict(streams=[('bu_wf', 1040), ('mixed_wf', 360)], keep='ovm'),
-    'C04': dict(streams=[('bu_wf', 1120), ('mixed_wf', 160), ('newreq', 160)], keep='ov'),
+    'C04': dict(streams=[('bu_wf', 1120), ('mixed_wf', 160), ('newreq', 160), ('abort_bu', 240)], keep='ov'),
     'C05': dict(streams=[('inj_hidden', 1200), ('siblings', 240), ('td_wf', 160)], keep='om'),
     'C06': dict(streams=[('inj_overlap', 1200), ('td_wf', 160)], keep='om'),
     'C07': dict(streams=[('inj_cycle', 1200)], keep='ov'),
@@ -18,7 +18,7 @@ CONFIG = {
     'C16': dict(streams=[('td_wf', 240), ('bu_wf', 240), ('mixed_wf', 120), ('newreq', 160)], keep='oevdm', two_process=True),
     'C17': dict(streams=[('td_wf', 480), ('bu_wf', 480), ('fail_wf', 240), ('panic', 160), ('failstamp', 160)], keep='v', extra='tracker'),
     'C18': dict(streams=[('fail_wf', 800), ('fail_bu', 500), ('fail_mixed', 300)], keep='eov'),
-    'C19': dict(streams=[('panic', 880), ('inj_hidden', 200), ('inj_overlap', 200), ('inj_cycle', 200)], keep='od'),
+    'C19': dict(streams=[('panic', 800), ('abort_bu', 160), ('inj_hidden', 200), ('inj_overlap', 200), ('inj_cycle', 200)], keep='od'),
     'C20': dict(streams=[('td_class', 320), ('td_wf', 480), ('bu_wf', 240), ('roles', 640)], keep='o'),
 }
 THOROUGH_FACTOR = 12
@@ -36,6 +36,9 @@ def make_case(rng, stream, big=False):
         return p, steps, norm_meta({}, 'td')
     if stream == 'newreq':
         p, steps, meta = P.gen_newreq_program(rng)
+        return p, steps, norm_meta(meta, 'mixed')
+    if stream == 'abort_bu':
+        p, steps, meta = P.gen_abort_bu_program(rng)
         return p, steps, norm_meta(meta, 'mixed')
     if stream == 'multi':
         p = P.gen_multi_program(rng)
@@ -423,6 +426,27 @@ def corpus(prop):
                    1: ('R', 0, 0, ('I', ('l', 2), ('Q', 2, 2, ('T', ('k', 7))), ('T', ('k', 7)))),
                    2: ('W', 10, 0, ('k', 3), ('D',))},
                   [['E', '0', '1'], ['S', '1', 'q', '0'], ['E', '0', '2'], ['S', '1', 'q', '0']], generated={10: (2, 0)}))
+    # O14 (fixed 2f9a96c, C04): both tasks aborted earlier (no output, read dependency kept); the bottom-up build schedules both,
+    # T0 then requires T1, which used to be executed as 'new' AND again from the queue
+    if prop in ('C04', 'C03', 'C08', 'C17', 'C19'):
+        p = P.Prog(); p.kind = 'panic'; p.exact_only = True; p.sources = [0, 1]
+        p.tasks = {0: ('R', 0, 0, ('I', ('l', 2), ('P',), ('Q', 1, 0, ('T', ('a',))))), 1: ('R', 1, 0, ('I', ('l', 2), ('P',), ('T', ('a',))))}
+        out.append((p, [['E', '0', '1'], ['E', '1', '1'], ['S', '1', 'q', '1'], ['S', '1', 'q', '0'], ['E', '0', '2'], ['E', '1', '2'], ['S', '1', 'b', '2', '1', '0'], ['S', '1', 'q', '0']],
+                    {'mode': 'mixed', 'repeat_steps': set(), 'probe_steps': {}, 'bu_steps': {6}}, 'corpus'))
+    if prop == 'C19':
+        # the three recorded C19 findings, so that each is exercised (and reported as KNOWN-FINDING) on every run
+        pan = ('R', 3, 0, ('I', ('l', 2), ('P',), ('D',)))      # task 9: panics while r3 = 1 (the earlier abort)
+        # O13: A(0): if r0 = 1 require B; B(1): require A.  cycle diagnosed, repaired, B required first
+        out.append(mk({0: ('R', 0, 0, ('I', ('l', 2), ('Q', 1, 0, ('D',)), ('D',))), 1: ('Q', 0, 0, ('D',))},
+                      [['E', '0', '1'], ['S', '1', 'q', '0'], ['E', '0', '2'], ['S', '1', 'q', '1']], kind='panic'))
+        # O5c after an abort: R(0) read r10 while r0 = 1 and keeps that dependency; W(1) writes r10 once r1 = 1 and is built first
+        out.append(mk({0: ('R', 0, 0, ('I', ('l', 2), ('R', 10, 0, ('D',)), ('D',))), 1: ('R', 1, 0, ('I', ('l', 2), ('W', 10, 0, ('k', 3), ('D',)), ('D',))), 9: pan},
+                      [['E', '3', '1'], ['S', '1', 'q', '9'], ['E', '3', '0'], ['E', '0', '1'], ['E', '1', '0'], ['S', '2', 'q', '0', 'q', '1'],
+                       ['E', '0', '0'], ['E', '1', '1'], ['S', '1', 'q', '1']], kind='panic', generated={10: (None, 0)}))
+        # O5a after an abort: the writer role of r10 moves from task 0 to task 1 and the new writer is built first
+        out.append(mk({0: ('R', 0, 0, ('I', ('l', 2), ('W', 10, 0, ('k', 3), ('D',)), ('D',))), 1: ('R', 1, 0, ('I', ('l', 2), ('W', 10, 0, ('k', 4), ('D',)), ('D',))), 9: pan},
+                      [['E', '3', '1'], ['S', '1', 'q', '9'], ['E', '3', '0'], ['E', '0', '1'], ['E', '1', '0'], ['S', '2', 'q', '0', 'q', '1'],
+                       ['E', '0', '0'], ['E', '1', '1'], ['S', '1', 'q', '1']], kind='panic', generated={10: (None, 0)}))
     # O4 (recorded finding for C03)
     if prop in ('C03',):
         p = P.Prog(); p.tasks = {2: ('Q', 1, 0, ('D',)), 1: ('R', 1, 0, ('D',))}; p.sources = [1]
